@@ -16,7 +16,13 @@ Open Scope N_scope.
 
 (* semantic items *)
 Record squestion := mkSQ { sq_labels : list (N * list byte); sq_type : N; sq_class : N }.
-Record srecord := mkSR { sr_labels : list (N * list byte); sr_type : N; sr_class : N; sr_ttl : N; sr_data : ardata }.
+(* the data of a record: an encodable value of one of the 17 typed formats (in its RFC wire form), or
+   any octets at all — OPT records, records of types without a typed decoder, anything *)
+Inductive sdata := SVal (a : ardata) | SRaw (bs : list byte).
+Definition sdata_enc (d : sdata) : list byte := match d with SVal a => rdata_enc a | SRaw bs => bs end.
+Definition sdata_ok (ty : N) (d : sdata) : bool :=
+  match d with SVal a => rdata_type_ok ty a && ardata_ok a | SRaw _ => true end.
+Record srecord := mkSR { sr_labels : list (N * list byte); sr_type : N; sr_class : N; sr_ttl : N; sr_data : sdata }.
 
 Section M.
   Variable msg : list byte.
@@ -67,32 +73,32 @@ Section M.
   (* ---- a record stands at p and ends at e ---- *)
   Definition record_stands (p : N) (x : srecord) (e : N) : Prop :=
     exists r pre post, name_stands p (sr_labels x) r /\
-      msg = pre ++ fixed_wire (sr_type x) (sr_class x) (sr_ttl x) (lenN (rdata_enc (sr_data x))) ++ rdata_enc (sr_data x) ++ post /\
+      msg = pre ++ fixed_wire (sr_type x) (sr_class x) (sr_ttl x) (lenN (sdata_enc (sr_data x))) ++ sdata_enc (sr_data x) ++ post /\
       lenN pre = r /\
-      rdata_type_ok (sr_type x) (sr_data x) = true /\ ardata_ok (sr_data x) = true /\
-      sr_type x < 65536 /\ sr_class x < 65536 /\ sr_ttl x < 4294967296 /\ lenN (rdata_enc (sr_data x)) < 65536 /\
-      e = r + 10 + lenN (rdata_enc (sr_data x)).
+      sdata_ok (sr_type x) (sr_data x) = true /\
+      sr_type x < 65536 /\ sr_class x < 65536 /\ sr_ttl x < 4294967296 /\ lenN (sdata_enc (sr_data x)) < 65536 /\
+      e = r + 10 + lenN (sdata_enc (sr_data x)).
 
   Definition ritem (p : N) (x : srecord) (e : N) : aitem :=
-    let rdl := lenN (rdata_enc (sr_data x)) in
+    let rdl := lenN (sdata_enc (sr_data x)) in
     mkItem p (e - 10 - rdl) (sr_type x) (sr_class x) (sr_ttl x) rdl true true e.
 
   Lemma record_at_of p x e : record_stands p x e -> record_at msg p = Some (ritem p x e).
   Proof.
-    intros (r & pre & post & Hn & Hm & Hpre & _ & _ & Bt & Bc & Bl & Bd & ->). unfold record_at. rewrite (name_at_of _ _ _ Hn).
-    set (rdl := lenN (rdata_enc (sr_data x))) in *. unfold fixed_wire in Hm. rewrite <- !app_assoc in Hm.
+    intros (r & pre & post & Hn & Hm & Hpre & _ & Bt & Bc & Bl & Bd & ->). unfold record_at. rewrite (name_at_of _ _ _ Hn).
+    set (rdl := lenN (sdata_enc (sr_data x))) in *. unfold fixed_wire in Hm. rewrite <- !app_assoc in Hm.
     pose proof (be_of pre (be_bytes 2 (sr_type x)) _ 2 (sr_type x) Hm ltac:(cbn; lia)) as E1.
     rewrite Hpre in E1. change (N.of_nat 2) with 2 in E1. rewrite E1.
-    assert (Hm2 : msg = (pre ++ be_bytes 2 (sr_type x)) ++ be_bytes 2 (sr_class x) ++ be_bytes 4 (sr_ttl x) ++ be_bytes 2 rdl ++ rdata_enc (sr_data x) ++ post)
+    assert (Hm2 : msg = (pre ++ be_bytes 2 (sr_type x)) ++ be_bytes 2 (sr_class x) ++ be_bytes 4 (sr_ttl x) ++ be_bytes 2 rdl ++ sdata_enc (sr_data x) ++ post)
       by (rewrite <- app_assoc; exact Hm).
     pose proof (be_of _ (be_bytes 2 (sr_class x)) _ 2 (sr_class x) Hm2 ltac:(cbn; lia)) as E2.
     rewrite lenN_app, Hpre in E2. change (lenN (be_bytes 2 (sr_type x))) with 2 in E2. change (N.of_nat 2) with 2 in E2. rewrite E2.
-    assert (Hm3 : msg = ((pre ++ be_bytes 2 (sr_type x)) ++ be_bytes 2 (sr_class x)) ++ be_bytes 4 (sr_ttl x) ++ be_bytes 2 rdl ++ rdata_enc (sr_data x) ++ post)
+    assert (Hm3 : msg = ((pre ++ be_bytes 2 (sr_type x)) ++ be_bytes 2 (sr_class x)) ++ be_bytes 4 (sr_ttl x) ++ be_bytes 2 rdl ++ sdata_enc (sr_data x) ++ post)
       by (rewrite <- app_assoc; exact Hm2).
     pose proof (be_of _ (be_bytes 4 (sr_ttl x)) _ 4 (sr_ttl x) Hm3 ltac:(cbn; lia)) as E3.
     rewrite !lenN_app, Hpre in E3. change (lenN (be_bytes 2 (sr_type x))) with 2 in E3. change (lenN (be_bytes 2 (sr_class x))) with 2 in E3.
     change (N.of_nat 4) with 4 in E3. replace (r + 2 + 2) with (r + 4) in E3 by lia. rewrite E3.
-    assert (Hm4 : msg = (((pre ++ be_bytes 2 (sr_type x)) ++ be_bytes 2 (sr_class x)) ++ be_bytes 4 (sr_ttl x)) ++ be_bytes 2 rdl ++ rdata_enc (sr_data x) ++ post)
+    assert (Hm4 : msg = (((pre ++ be_bytes 2 (sr_type x)) ++ be_bytes 2 (sr_class x)) ++ be_bytes 4 (sr_ttl x)) ++ be_bytes 2 rdl ++ sdata_enc (sr_data x) ++ post)
       by (rewrite <- app_assoc; exact Hm3).
     pose proof (be_of _ (be_bytes 2 rdl) _ 2 rdl Hm4 ltac:(cbn; lia)) as E4.
     rewrite !lenN_app, Hpre in E4. change (lenN (be_bytes 2 (sr_type x))) with 2 in E4. change (lenN (be_bytes 2 (sr_class x))) with 2 in E4.
@@ -174,22 +180,34 @@ Section M.
      record that stands at p carries its TYPE/CLASS/TTL/RDLENGTH, and the typed decoder run at the
      item's data offset returns the encoded value (C02_record_roundtrip gives the same for the owner
      name and the header through the reader's own calls) *)
-  Theorem standing_record_decodes p x e c : record_stands p x e -> whole msg c -> pos c = a_type_off (ritem p x e) + 10 ->
+  Theorem standing_record_decodes p x e c a : record_stands p x e -> sr_data x = SVal a ->
+    whole msg c -> pos c = a_type_off (ritem p x e) + 10 ->
     exists m, read_rdata msg (sr_type x) (a_rdlen (ritem p x e)) = Some m /\
-              m c = (c_set_pos c e, Ok (rdata_val (sr_data x))).
+              m c = (c_set_pos c e, Ok (rdata_val a)).
   Proof.
-    intros (r & pre & post & Hn & Hm & Hpre & Hty & Ha & Bt & Bc & Bl & Bd & ->) Hw Hp.
-    destruct (rdata_roundtrip msg (sr_type x) (sr_data x) Hty Ha) as (m & Em & Hcons).
-    exists m. cbn [ritem a_rdlen]. split; [exact Em|].
-    assert (Hm3 : msg = (pre ++ fixed_wire (sr_type x) (sr_class x) (sr_ttl x) (lenN (rdata_enc (sr_data x)))) ++ rdata_enc (sr_data x) ++ post)
+    intros (r & pre & post & Hn & Hm & Hpre & Hok & Bt & Bc & Bl & Bd & ->) Hd Hw Hp.
+    rewrite Hd in *. cbn [sdata_ok sdata_enc] in *. apply Bool.andb_true_iff in Hok. destruct Hok as [Hty Ha].
+    destruct (rdata_roundtrip msg (sr_type x) a Hty Ha) as (m & Em & Hcons).
+    exists m. cbn [ritem a_rdlen]. rewrite Hd. cbn [sdata_enc]. split; [exact Em|].
+    assert (Hm3 : msg = (pre ++ fixed_wire (sr_type x) (sr_class x) (sr_ttl x) (lenN (rdata_enc a))) ++ rdata_enc a ++ post)
       by (rewrite <- app_assoc; exact Hm).
-    cbn [ritem a_type_off] in Hp.
-    assert (Hlen : lenN msg = r + 10 + lenN (rdata_enc (sr_data x)) + lenN post).
+    cbn [ritem a_type_off] in Hp. rewrite Hd in Hp. cbn [sdata_enc] in Hp.
+    assert (Hlen : lenN msg = r + 10 + lenN (rdata_enc a) + lenN post).
     { rewrite Hm3 at 1. rewrite !lenN_app, lenN_fixed_wire. lia. }
     destruct Hw as [Hl Ho].
     rewrite (Hcons _ _ c Hm3 ltac:(unfold cwf; rewrite Hl, Ho; split; [lia|exact I]) Ho
                ltac:(rewrite lenN_app, lenN_fixed_wire; lia) ltac:(rewrite lenN_app, lenN_fixed_wire; lia)).
     f_equal. f_equal. rewrite lenN_app, lenN_fixed_wire. lia.
+  Qed.
+
+  (* the octets of the data of a standing record, whatever its kind *)
+  Lemma standing_record_bytes p x e : record_stands p x e ->
+    subN msg (a_type_off (ritem p x e) + 10) (a_rdlen (ritem p x e)) = sdata_enc (sr_data x).
+  Proof.
+    intros (r & pre & post & Hn & Hm & Hpre & _ & Bt & Bc & Bl & Bd & ->). cbn [ritem a_type_off a_rdlen].
+    replace (r + 10 + lenN (sdata_enc (sr_data x)) - 10 - lenN (sdata_enc (sr_data x)) + 10) with (lenN (pre ++ fixed_wire (sr_type x) (sr_class x) (sr_ttl x) (lenN (sdata_enc (sr_data x)))))
+      by (rewrite lenN_app, lenN_fixed_wire; lia).
+    rewrite Hm at 1. rewrite app_assoc. apply subN_mid.
   Qed.
 End M.
 
@@ -202,7 +220,7 @@ Definition example_msg : list byte :=
 
 Lemma example_stands :
   let q := mkSQ [(12, [x61])] 1 1 in
-  let x := mkSR [(12, [x61])] 1 1 60 (A_A 16909060) in
+  let x := mkSR [(12, [x61])] 1 1 60 (SVal (A_A 16909060)) in
   questions_stand example_msg 12 [q] 19 /\ records_stand example_msg 19 [x] 35 /\ lenN example_msg = 35.
 Proof.
   cbv zeta. split; [|split; [|reflexivity]].
@@ -239,13 +257,13 @@ Proof.
               eq_refl eq_refl ltac:(lia) ltac:(lia) ltac:(lia) ltac:(lia)) as (qends & rends & Hp & L1 & L2 & _ & _).
   eexists. eexists. exists 19, 35. eexists. eexists. split; [exact Hp|]. split; [exact L1|]. split; [exact L2|].
   split; [vm_compute; reflexivity|]. cbv zeta.
-  assert (Hs : RState example_msg 1 1 0 0 (qitems 12 [mkSQ [(12, [x61])] 1 1] qends) (ritems 19 [mkSR [(12, [x61])] 1 1 60 (A_A 16909060)] rends) 35
+  assert (Hs : RState example_msg 1 1 0 0 (qitems 12 [mkSQ [(12, [x61])] 1 1] qends) (ritems 19 [mkSR [(12, [x61])] 1 1 60 (SVal (A_A 16909060))] rends) 35
                  (mkReader (c_set_pos (c_new example_msg) 12) (tr_set tr_default (mkHeader 4660 33152 1 1 0 0)) false) 0 0).
   { apply (rstate_start_any example_msg 1 1 0 0 _ _ 19 35 Hp); try reflexivity. split; reflexivity. }
   split; [exact Hs|].
   assert (Ha : allowed 1 1 0 0 [TQuestion; TRecord; TSeek 0; TRecord] 0 0 = Some (2, 2)) by (vm_compute; reflexivity).
   split; [exact Ha|].
-  assert (Hw : within 1 1 0 0 (qitems 12 [mkSQ [(12, [x61])] 1 1] qends) (ritems 19 [mkSR [(12, [x61])] 1 1 60 (A_A 16909060)] rends)
+  assert (Hw : within 1 1 0 0 (qitems 12 [mkSQ [(12, [x61])] 1 1] qends) (ritems 19 [mkSR [(12, [x61])] 1 1 60 (SVal (A_A 16909060))] rends)
                  [TQuestion; TRecord; TSeek 0; TRecord] 0 0) by (eapply allowed_within; [exact L1|exact L2|exact Ha]).
   split; [exact Hw|].
   exact (reader_refines_any example_msg 1 1 0 0 _ _ 19 35 Hp _ _ 0 0 2 2 Hs Ha Hw).
